@@ -539,14 +539,18 @@ func c04Handshake(w *world.World) []world.Violation {
 	return vs
 }
 
-func c04AllSlots(lay string, cmd string, tagged bool, disable bool) *world.Scenario {
+func c04AllSlots(lay string, cmd string, tagged int, disable bool) *world.Scenario {
 	initSlotKeys()
 	sc := &world.Scenario{Nodes: layout(lay), Bound: 0, Family: "all-slots", Horizon: 1 << 22, DisableSlave: disable, InputEnum: true}
 	cs := world.ClientSpec{}
 	for s := 0; s < 16384; s++ {
 		k := slotKeys[s]
-		if tagged {
+		switch tagged {
+		case 1:
 			k = "pre{" + k + "}post}" + fmt.Sprint(s%7)
+		case 2:
+			// a closing brace BEFORE the first opening one does not end the tag
+			k = fmt.Sprint(s%5) + "}{" + k + "}" + fmt.Sprint(s%3) + "{x}"
 		}
 		var r Req
 		if cmd == "get" {
@@ -794,12 +798,15 @@ func c04Scenarios(tier string) []*world.Scenario {
 	}
 	for _, l := range lays {
 		for _, cmd := range []string{"get", "set"} {
-			out = append(out, c04AllSlots(l, cmd, false, false))
+			out = append(out, c04AllSlots(l, cmd, 0, false))
 			if thorough || l == "edges" {
-				out = append(out, c04AllSlots(l, cmd, true, false))
+				out = append(out, c04AllSlots(l, cmd, 1, false))
+			}
+			if thorough || (l == "thirds" && cmd == "get") {
+				out = append(out, c04AllSlots(l, cmd, 2, false))
 			}
 		}
-		out = append(out, c04AllSlots(l, "get", false, true))
+		out = append(out, c04AllSlots(l, "get", 0, true))
 	}
 	var names []string
 	for n, s := range world.SpecTable {
@@ -859,7 +866,7 @@ func init() {
 		Scenarios: c02Scenarios, BudgetQuick: 100, BudgetThorough: 1500,
 		Assumptions: []string{"multi-megabyte arguments are represented by sizes crossing every buffer threshold in the code (64 B caps, 1 KiB ring default, 4 KiB growth step, 64 KiB read buffer) and one 2 MiB value in the thorough tier"}})
 	register(&Check{ID: "C04", Level: "model_checking",
-		Rule:      "(i) ALL 16384 slots (one brace-free and one hash-tagged key each) as a read and as a write through 2-3 slot layouts (thirds, 64 alternating ranges, single-slot ranges at 0/1/5461/5462/16383), replica reads enabled and disabled; (ii) EVERY forwarded command of the supported table x {0,1,2 replicas} x replica reads on/off x slot positions, under EVERY outcome of every random choice (unbounded); (iii) AUTH/READONLY handshake on every new backend connection with the handshake replies under ALL 2^9 segmentations, and coalesced with the replies to the first requests into one read (fixed and as an explorer choice); (iv) a master with open connections demoted to replica by a topology update (role flip), reads sent after the proxy adopted it; (v) a topology update that leaves a slot range without owner (range dropped, master failed without promotion) or moves it to another live master, requests sent after the proxy adopted it; oracle: the receiving node belongs to the replica set owning the specification slot of the key (master for writes, cursor scans, scripts, and always when replica reads are disabled), handshake order AUTH, READONLY, then requests, and no handshake reply surfaces at a client; distinct = observable outcomes",
+		Rule:      "(i) ALL 16384 slots (a brace-free key, a hash-tagged key, and a key whose tag is preceded by a stray closing brace) as a read and as a write through 2-3 slot layouts (thirds, 64 alternating ranges, single-slot ranges at 0/1/5461/5462/16383), replica reads enabled and disabled; (ii) EVERY forwarded command of the supported table x {0,1,2 replicas} x replica reads on/off x slot positions, under EVERY outcome of every random choice (unbounded); (iii) AUTH/READONLY handshake on every new backend connection with the handshake replies under ALL 2^9 segmentations, and coalesced with the replies to the first requests into one read (fixed and as an explorer choice); (iv) a master with open connections demoted to replica by a topology update (role flip), reads sent after the proxy adopted it; (v) a topology update that leaves a slot range without owner (range dropped, master failed without promotion) or moves it to another live master, requests sent after the proxy adopted it; oracle: the receiving node belongs to the replica set owning the specification slot of the key (master for writes, cursor scans, scripts, and always when replica reads are disabled), handshake order AUTH, READONLY, then requests, and no handshake reply surfaces at a client; distinct = observable outcomes",
 		Scenarios: c04Scenarios, BudgetQuick: 100, BudgetThorough: 1500,
 		Assumptions: []string{"write/read classification is hand-written from the Redis command reference (spec.go)", "corpus keys are brace-free or carry well-formed non-empty hash tags, on which the spec slot function and the proxy's agree (C05 decides the slot function itself)"}})
 }
